@@ -27,7 +27,7 @@ ASSUMPTIONS = [
     "payouts within 1e-9 of a rounding tie of the fee step may round either way (the code divides in floating point)",
 ]
 MIN_NONTRIVIAL = {"quick": 600, "thorough": 12000}
-REQUIRED_LABELS = ["settled.itm.paid", "settled.otm", "settled.delisted", "expiry.on_grid", "expiry.between", "expiry.before_start", "expiry.after_end", "co_market", "alone", "closed_bar.trade_rejected", "partial_sell", "atm.equal", "cfg.BTC"]
+REQUIRED_LABELS = ["settled.itm.paid", "settled.otm", "settled.delisted", "expiry.on_grid", "expiry.between", "expiry.before_start", "expiry.after_end", "co_market", "alone", "closed_bar.trade_rejected", "partial_sell", "atm.equal", "cfg.BTC", "bought.later_bar"]
 
 
 @st.composite
@@ -76,6 +76,7 @@ def st_case(draw):
                 "listed_at_expiry": draw(st.sampled_from([True, True, False])),
                 "amount": draw(st.sampled_from(["1", "2", "7", "40"] if cfg == "ETH" else ["0.1", "0.3", "2", "12.5"])),
                 "mark_ticks": [draw(st.integers(0, 300)) for _ in range(nh + 1)],
+                "buy_h": draw(st.sampled_from([0, 0, 1, 2])),  # hour of purchase: holdings with different expiries are built up over several bars
                 "sell": draw(st.sampled_from([None, None, ["1", draw(st.integers(1, max(1, nh - 1)))]])),
             }
         )
@@ -169,10 +170,19 @@ def body(case, ctx: Ctx):
             minute = int((ts - dw.BASE) / pd.Timedelta(minutes=1))
             if m.is_open and not state["bought"]:
                 state["bought"] = True
+                state["h0"] = minute // 60
                 m.deposit(Decimal(900))
+            if m.is_open and state["bought"]:
                 for i, nme in enumerate(names):
-                    if nme in m.market_status.data.index:
-                        m.buy(nme, amounts[i])
+                    if i not in state.setdefault("done", set()) and minute // 60 - state["h0"] >= case["instruments"][i].get("buy_h", 0):
+                        state["done"].add(i)
+                        if nme in m.market_status.data.index:
+                            try:
+                                m.buy(nme, amounts[i])
+                                if minute // 60 > state["h0"]:
+                                    labels.add("bought.later_bar")
+                            except Exception:  # noqa: e.g. no longer tradable
+                                pass
             for i, ins in enumerate(case["instruments"]):
                 if ins["sell"] and m.is_open and minute == ins["sell"][1] * 60 and names[i] in m.positions and names[i] in m.market_status.data.index:
                     try:
@@ -222,6 +232,7 @@ def body(case, ctx: Ctx):
             labels.add("not_bought")
             continue
         # the settlement bar: first open bar at or after expiry (and not before the purchase)
+        first_open = min(pd.Timestamp(x.timestamp) for x in a.actions if type(x).__name__ == "BuyAction" and x.instrument_name == nme)
         cand = [b for b in open_bars if b >= E and b >= first_open]
         sbar = cand[0] if cand else None
         delivers = [x for x in a.actions if type(x).__name__ == "DeliverAction" and x.instrument_name == nme]
